@@ -54,6 +54,18 @@ Proof.
 Qed.
 Print Assumptions c04_put_delete_refine.
 
+(** (2') Read your writes, and nothing else moves: after Put(k, v) a Get of k returns v (nil for
+    an empty v, which is a delete) and a Get of any other key returns what it returned before;
+    likewise after Delete(k). *)
+Theorem c04_read_your_writes : forall pfx s k v k', wf_state s = true ->
+  cache_get pfx (cache_put pfx k v s) k' = (if key_eqb k' k then v else cache_get pfx s k') /\
+  cache_get pfx (cache_delete pfx k s) k' = (if key_eqb k' k then [] else cache_get pfx s k').
+Proof.
+  intros pfx s k v k' H. apply wf_state_sorted in H.
+  split; [apply cache_get_after_put|apply cache_get_after_delete]; exact H.
+Qed.
+Print Assumptions c04_read_your_writes.
+
 (** (3) Committing the transaction cache publishes exactly its writes: the cache is empty
     afterwards, the overlay is the old overlay with the cache's entries replayed into it, the
     store is untouched, the block-level view becomes the old transaction-level view, and the
